@@ -67,7 +67,7 @@ def line(kind, st, ex, cds, seqn, sym, ident, sel, score, rgb, mode, par):
 def cases(run):
     global EXHAUSTIVE_NOTE
     rng = run.rng
-    g = 6 if run.tier == "quick" else 8
+    g = 7 if run.tier == "quick" else 8
     EXHAUSTIVE_NOTE = (f"all layouts of 1..3 non-empty ascending non-overlapping blocks on [0,{g}] (0-bp gaps included) x "
                        "strand x {FeatureInterval, non-coding transcript, every coding range [a,b) with a,b on the "
                        "layout's covered span} (sampled to <= 4 per layout in quick) x {chromosome, chunk-relative} x "
